@@ -35,6 +35,8 @@ pub enum Base {
     Sends,
     /// the inbound stream of `Handlers` delivered one byte per write (fault at every byte offset)
     Bytes,
+    /// the application is streaming an outbound QoS 1 publish: header and first chunk written, second chunk owed
+    OutStream,
     /// write back-pressure active: the peer does not read, the small write buffer is over its high
     /// watermark, one publish handler is in flight; the peer starts reading again after the fault
     Backpressure,
@@ -72,6 +74,8 @@ enum BaseStep {
     SendRaw(Vec<u8>),
     StartSender(usize, SK),
     Window(bool),
+    /// the application hands the next chunk of sender j's streamed publish to the sink
+    Chunk(usize),
 }
 
 fn script_for(cfg: &TdCfg) -> Vec<BaseStep> {
@@ -90,6 +94,7 @@ fn script_for(cfg: &TdCfg) -> Vec<BaseStep> {
             let cut = b.len() - 4;
             vec![BaseStep::SendRaw(b[..cut].to_vec())]
         }
+        Base::OutStream => vec![BaseStep::StartSender(0, SK::Stream { qos: 1, size: 6, plan: 1 }), BaseStep::Chunk(0), BaseStep::StartSender(1, SK::Q1)],
         Base::Backpressure => vec![
             BaseStep::Send(rf::publish(1, 1, "t", &[0xC1])),
             BaseStep::Window(false),
@@ -185,6 +190,16 @@ impl Scenario for Td {
                     BaseStep::Send(p) => self.conn.send(&p),
                     BaseStep::SendRaw(b) => self.conn.send_raw(&b),
                     BaseStep::Window(open) => self.conn.window(open),
+                    BaseStep::Chunk(j) => {
+                        let w = {
+                            let mut a = self.app.borrow_mut();
+                            a[j].chunks_allowed += 1;
+                            a[j].chunk_waker.take()
+                        };
+                        if let Some(w) = w {
+                            w.wake();
+                        }
+                    }
                     BaseStep::StartSender(j, k) => {
                         if let Some(s) = self.conn.sink() {
                             start_sender(&s, k, j, self.app.clone());
@@ -264,6 +279,23 @@ impl Scenario for Td {
             }
             return false;
         }
+        // a streaming application keeps handing over the chunks it owes (they must fail, not hang)
+        if self.cfg.base == Base::OutStream {
+            let w = {
+                let mut a = self.app.borrow_mut();
+                let j = (0..a.len()).find(|j| a[*j].chunks_wanted > a[*j].chunks_allowed);
+                j.map(|j| {
+                    a[j].chunks_allowed += 1;
+                    a[j].chunk_waker.take()
+                })
+            };
+            if let Some(w) = w {
+                if let Some(w) = w {
+                    w.wake();
+                }
+                return true;
+            }
+        }
         // the peer reads again: the write buffer flushes and the dispatcher leaves its back-pressure state
         if self.cfg.base == Base::Backpressure && !self.window_reopened {
             self.window_reopened = true;
@@ -336,7 +368,7 @@ pub fn configs(tier: Tier) -> Vec<TdCfg> {
     let mut v = Vec::new();
     let causes = [Cause::PeerClose, Cause::ReadErr, Cause::WriteErr, Cause::Garbage, Cause::ProtoViolation, Cause::HandlerErr, Cause::ProtoErr, Cause::KeepAlive, Cause::Close, Cause::ForceClose];
     for (ver, role) in crate::c05::roles() {
-        for base in [Base::Handlers, Base::Streaming, Base::Sends, Base::Bytes, Base::Backpressure] {
+        for base in [Base::Handlers, Base::Streaming, Base::Sends, Base::Bytes, Base::Backpressure, Base::OutStream] {
             for cause in causes {
                 if base == Base::Bytes && !matches!(cause, Cause::PeerClose | Cause::ReadErr | Cause::ForceClose | Cause::Garbage) {
                     continue;
@@ -364,7 +396,7 @@ pub fn configs(tier: Tier) -> Vec<TdCfg> {
                     // the client's own keep-alive is a ping task (C20); inbound keep-alive expiry is a server notion
                     continue;
                 }
-                if base == Base::Sends {
+                if base == Base::Sends || base == Base::OutStream {
                     ep = crate::outbound::ep_for(ep, 1, false);
                     ep.handler_auto = false;
                 }
@@ -387,7 +419,7 @@ pub fn run(tier: Tier) -> i32 {
         ck.explore::<Td>("teardown", i, c, &ecfg);
     }
     ck.rule = format!(
-        "4 roles x 5 base schedules (write back-pressure active - peer not reading, 16-byte write buffer over its high watermark, a publish handler in flight - with the peer reading again after the fault; the publish/subscribe stream delivered one byte per write for peer close / read error / force-close at every byte offset; two gated publish handlers + gated SUBSCRIBE; streamed PUBLISH half received with the handler blocked in read(); one send awaiting its ack + one parked on the window + one ready() future) x 10 termination causes (peer close, read error, write error, undecodable bytes, protocol-violating packet, publish handler error, protocol handler error, keep-alive expiry, sink.close(), sink.force_close()); the cause is injected before/after every step of the base schedule at quiescence and, with {} deviation(s), between any two task polls; afterwards virtual time advances up to 60 s and gates are never opened; oracle: exactly one Stop of the class the statement assigns to the cause, connection task completed, every send/ready future resolved, blocked reader saw an error or was cancelled, handlers cancelled only after the Stop was handled, nothing left executing",
+        "4 roles x 6 base schedules (an outbound QoS 1 publish being streamed by the application - header and first chunk written, second chunk owed, another sender parked behind it; write back-pressure active - peer not reading, 16-byte write buffer over its high watermark, a publish handler in flight - with the peer reading again after the fault; the publish/subscribe stream delivered one byte per write for peer close / read error / force-close at every byte offset; two gated publish handlers + gated SUBSCRIBE; streamed PUBLISH half received with the handler blocked in read(); one send awaiting its ack + one parked on the window + one ready() future) x 10 termination causes (peer close, read error, write error, undecodable bytes, protocol-violating packet, publish handler error, protocol handler error, keep-alive expiry, sink.close(), sink.force_close()); the cause is injected before/after every step of the base schedule at quiescence and, with {} deviation(s), between any two task polls; afterwards virtual time advances up to 60 s and gates are never opened; oracle: exactly one Stop of the class the statement assigns to the cause, connection task completed, every send/ready future resolved, blocked reader saw an error or was cancelled, handlers cancelled only after the Stop was handled, nothing left executing",
         ecfg.max_dev
     );
     ck.assumptions = vec![
